@@ -12,6 +12,7 @@ import MinizProof.Gen.All
 import MinizProof.Spec.Inflate
 import MinizProof.Lemmas.Finite
 import MinizProof.Lemmas.CoreRefine
+import MinizProof.Lemmas.CoreZlib
 set_option maxRecDepth 1000000
 open Fin'
 
@@ -89,6 +90,29 @@ theorem valid_raw_stream_decodes_one_shot (r : Regs) (inp out : Array UInt8) (ou
     (decompress r inp out outPos budget flags).consumed = (res.bitsUsed + 7) / 8 ∧
     (∀ i, i < res.out.size → (decompress r inp out outPos budget flags).out[outPos + i]? = res.out[i]?) :=
   refine_raw_flat r inp out outPos budget flags maxDist res hstart hshape hflat hz hstop hpos hspec hroom
+
+open Model.Core in
+/-- The same for the zlib format (RFC 1950 header, DEFLATE body, big-endian Adler-32 trailer): every
+    stream `Spec.zlibSpec` accepts is decoded by one model call to exactly its plaintext, `Done`,
+    with exactly header + body + trailer bytes consumed. -/
+theorem valid_zlib_stream_decodes_one_shot (r : Regs) (inp out : Array UInt8) (outPos budget flags maxDist : Nat)
+    (zr : Spec.ZInflated) (hstart : r.state = sStart)
+    (hshape : r.rawHeader.size = 4 ∧ r.tableSizes.size = 3 ∧ r.lenCodes.size = 512)
+    (hflat : hasFlag flags fNonWrapping = true) (hz : hasFlag flags fParseZlib = true)
+    (hstop : hasFlag flags fStopOnBlockBoundary = false) (hpos : outPos ≤ out.size)
+    (hspec : Spec.zlibSpec (out.extract 0 outPos) maxDist inp true = .accept zr)
+    (hroom : outPos + zr.inner.out.size ≤ min (outPos + budget) out.size) :
+    (decompress r inp out outPos budget flags).status = stDone ∧
+    (decompress r inp out outPos budget flags).written = zr.inner.out.size ∧
+    (decompress r inp out outPos budget flags).consumed = zr.bytesUsed ∧
+    (∀ i, i < zr.inner.out.size → (decompress r inp out outPos budget flags).out[outPos + i]? = zr.inner.out[i]?) := by
+  obtain ⟨cmf, flg, a, b, c, d, h0, h1, hv, hi, ha, hb, hc, hd, hadl, hused⟩ := zlibSpec_inv hspec
+  have h := refine_zlib_flat r inp out outPos budget flags maxDist zr.inner cmf flg a b c d hstart hshape hflat hz hstop
+    hpos h0 h1 hv hi ha hb hc hd hroom
+  refine ⟨?_, h.2.1, by rw [h.2.2.1, hused], h.2.2.2⟩
+  rw [h.1, if_neg]
+  intro hh
+  exact hh.2 (hadl rfl)
 
 /-- The hypotheses are satisfiable: a fresh decoder is at `Start` with registers of the right shape,
     and the reference decoder accepts concrete stored and fixed-Huffman streams (with a trailing byte). -/
